@@ -3,3 +3,4 @@ pub mod hash;
 pub mod notes;
 #[cfg(feature = "full")]
 pub mod structs;
+pub mod locator;
